@@ -163,7 +163,11 @@ fn roundtrip(cap: &mut SyncCapture, filter: &Filter, which: usize) -> Result<Tre
         4 => (cmds::CountGrouped::new(Tag::Artist).filter(filter.clone()).command(), 0),
         5 => (cmds::List::new(Tag::Album).filter(filter.clone()).group_by([Tag::Date]).command(), 1),
         6 => (cmds::Find::new(filter.clone()).sort(Tag::Title).window(2..9).command(), 0),
-        _ => (cmds::List::new(Tag::Album).group_by([Tag::Date, Tag::Genre]).filter(filter.clone()).command(), 1),
+        7 => (cmds::List::new(Tag::Album).group_by([Tag::Date, Tag::Genre]).filter(filter.clone()).command(), 1),
+        // `filter` is documented to overwrite an earlier filter: the one set last is the one built
+        8 => (cmds::List::new(Tag::Album).filter(Filter::tag(Tag::Genre, "overwritten")).filter(filter.clone()).command(), 1),
+        9 => (cmds::CountGrouped::new(Tag::Artist).filter(Filter::tag(Tag::Genre, "overwritten")).filter(filter.clone()).command(), 0),
+        _ => (cmds::List::new(Tag::Album).filter(Filter::tag_exists(Tag::Genre)).group_by([Tag::Date]).filter(filter.clone()).command(), 1),
     };
     let wire = cap.send(cmd);
     let (lines, rest) = split_lines(&wire);
@@ -171,8 +175,8 @@ fn roundtrip(cap: &mut SyncCapture, filter: &Filter, which: usize) -> Result<Tre
         return Err(format!("not one line: {:?}", String::from_utf8_lossy(&wire)));
     }
     let (name, args) = tokenize(lines[0]).map_err(|e| format!("tokenizer: {} on {:?}", e.name(), String::from_utf8_lossy(lines[0])))?;
-    let want_name: &[u8] = [b"find" as &[u8], b"count", b"list", b"count", b"count", b"list", b"find", b"list"][which];
-    let extra_args = [0usize, 0, 0, 2, 2, 2, 4, 4][which];
+    let want_name: &[u8] = [b"find" as &[u8], b"count", b"list", b"count", b"count", b"list", b"find", b"list", b"list", b"count", b"list"][which];
+    let extra_args = [0usize, 0, 0, 2, 2, 2, 4, 4, 0, 2, 2][which];
     if name != want_name {
         return Err(format!("command word {:?}", String::from_utf8_lossy(&name)));
     }
@@ -205,7 +209,7 @@ pub fn check_plan(cap: &mut SyncCapture, acc: &mut Acc, case: u64, plan: &Plan, 
         acc.distinct("nontrivial", hash_bytes(format!("{:?}", want).as_bytes()));
     }
     // find/count/list for every filter; the longer builder paths for a rotating one
-    let paths: [usize; 4] = [0, 1, 2, 3 + (hash_bytes(format!("{:?}", want).as_bytes()) % 5) as usize];
+    let paths: [usize; 4] = [0, 1, 2, 3 + (hash_bytes(format!("{:?}", want).as_bytes()) % 8) as usize];
     for which in paths {
         acc.inc("evaluations");
         let got = panics::catch(|| roundtrip(cap, &filter, which)).unwrap_or_else(|p| Err(format!("panic: {}", p.0)));
@@ -224,7 +228,7 @@ pub fn check_plan(cap: &mut SyncCapture, acc: &mut Acc, case: u64, plan: &Plan, 
             Ok(t) => format!("parsed as {}", t.normalize().describe()),
             Err(e) => e.clone(),
         };
-        let detail = J::obj().set("expected", want.describe()).set("observed", describe.clone()).set("command", ["find", "count", "list", "count.group_by", "CountGrouped.filter", "list.filter.group_by", "find.sort.window", "list.group_by.filter"][which]).set("plan", format!("{:?}", plan));
+        let detail = J::obj().set("expected", want.describe()).set("observed", describe.clone()).set("command", ["find", "count", "list", "count.group_by", "CountGrouped.filter", "list.filter.group_by", "find.sort.window", "list.group_by.filter", "list.filter.filter", "CountGrouped.filter.filter", "list.filter.group_by.filter"][which]).set("plan", format!("{:?}", plan));
         if !has_dq && !has_bs {
             acc.violation(case, None, format!("filter does not denote what was built: expected {} but {}", want.describe(), describe), detail);
             return;
@@ -329,7 +333,7 @@ impl Property for C11 {
     fn meta(&self, _cfg: &Cfg, _acc: &Acc) -> Meta {
         Meta {
             level: "exploration",
-            rule: "EXHAUSTIVE: all 820 value strings of length <=3 over {a, space, double quote, single quote, backslash, (, ), !, e-acute} plus 19 words (AND, ==, contains, nested-expression look-alikes, tabs, CR, CJK, emoji), each as a leaf with all five operators, negated, and on both sides of an AND; plus random trees (depth <=6, AND chains of width 2-6 in both association orders, negate()/! mixes, tag_exists/tag_absent shorthands, 31 named tags + any + 9 other valid names, values incl. 3000-byte ones); every filter is sent through find, count and list and one of five longer builder paths (Count::group_by, CountGrouped::filter, List::filter.group_by, Find::sort.window, List::group_by.filter), the wire line is tokenised by the MPD tokenizer port, the filter argument parsed by the port of MPD's ParseExpression and compared with the mirror tree modulo AND flattening and tag-name case; failing filters are attributed to known-finding classes by the values in the tree + failure mode and must round-trip once those values are neutralised; non-trivial = tree with >=2 nodes or a value with a special character or empty; distinct by normalised tree".into(),
+            rule: "EXHAUSTIVE: all 820 value strings of length <=3 over {a, space, double quote, single quote, backslash, (, ), !, e-acute} plus 19 words (AND, ==, contains, nested-expression look-alikes, tabs, CR, CJK, emoji), each as a leaf with all five operators, negated, and on both sides of an AND; plus random trees (depth <=6, AND chains of width 2-6 in both association orders, negate()/! mixes, tag_exists/tag_absent shorthands, 31 named tags + any + 9 other valid names, values incl. 3000-byte ones); every filter is sent through find, count and list and one of eight longer builder paths (Count::group_by, CountGrouped::filter, List::filter.group_by, Find::sort.window, List::group_by.filter, and three in which `filter` is called twice and the documented overwrite must leave the second filter), the wire line is tokenised by the MPD tokenizer port, the filter argument parsed by the port of MPD's ParseExpression and compared with the mirror tree modulo AND flattening and tag-name case; failing filters are attributed to known-finding classes by the values in the tree + failure mode and must round-trip once those values are neutralised; non-trivial = tree with >=2 nodes or a value with a special character or empty; distinct by normalised tree".into(),
             nontrivial_set: "nontrivial",
             assumptions: vec![
                 "ports of MPD util/Tokenizer.cxx and song/Filter.cxx (ParseExpression, ExpectWord, ExpectQuoted, ParseStringFilter) are the trusted base; self-tested at start-up".into(),
